@@ -279,7 +279,11 @@ func c03One(s *Svc, m *spec.Method, v any, r *MethodResult, report bool) []strin
 		return fmt.Sprintf("loc=%s type=%s req=%s value=%s%s", p.Loc, typeClass(sp, p.T), p.Req, valueClass(val), ct)
 	}
 	if call.ServerPanic != "" {
-		fail("C03 server-panic "+panicSite(call.ServerPanic), "server handler panicked: "+call.ServerPanic)
+		sh := ""
+		if f := m.Feat["shapes"]; f != "" {
+			sh = "shapes=" + f + " "
+		}
+		fail("C03 server-panic "+sh+panicSite(call.ServerPanic), "server handler panicked: "+call.ServerPanic)
 		return sigs
 	}
 	if call.Invoked != 1 {
